@@ -118,6 +118,9 @@ def cases(tier, seed):
     for form in ("two-blocks", "single-block", "single-block-mask", "two-blocks-fd"):
         for pert in ("jc", "rabi", "jc+z"):
             out.append(dict(kind="matrix", form=form, pert=pert, order=2 if qk else 3))
+    # internal levels with identical H_0 (degenerate pairs are kept), asymmetric number-changing coupling
+    for pert in ("asym", "asym2"):
+        out.append(dict(kind="matrix", form="single-block", pert=pert, order=2, degenerate=True))
     return out
 
 
@@ -318,10 +321,16 @@ def run_matrix(case):
     R = sympy.Rational
     order = case["order"]
     H0 = sympy.Matrix([[N + N**2 / 9 + R(4, 5), 0], [0, N + N**2 / 9 - R(4, 5)]])
+    if case.get("degenerate"):
+        H0 = sympy.Matrix([[N + N**2 / 9, 0], [0, N + N**2 / 9]])
     if case["pert"] == "jc":
         H1 = sympy.Matrix([[0, a], [Dagger(a), 0]])
     elif case["pert"] == "rabi":
         H1 = sympy.Matrix([[0, a + Dagger(a)], [a + Dagger(a), 0]])
+    elif case["pert"] == "asym":
+        H1 = sympy.Matrix([[a + Dagger(a), a + 2 * Dagger(a)], [Dagger(a) + 2 * a, 0]])
+    elif case["pert"] == "asym2":
+        H1 = sympy.Matrix([[0, a**2 + 3 * Dagger(a)], [Dagger(a) ** 2 + 3 * a, a + Dagger(a)]])
     else:
         H1 = sympy.Matrix([[a + Dagger(a), a], [Dagger(a), -(a + Dagger(a))]])
     modes = [a]
@@ -332,7 +341,7 @@ def run_matrix(case):
     h1m = to_matrix(sp, H1, 2)
     levels = np.real(np.diag(h0m))
     gaps = np.abs(levels.reshape(-1, 1) - levels.reshape(1, -1)) + np.eye(2 * n)
-    if gaps.min() < 1e-6:
+    if gaps.min() < 1e-6 and not case.get("degenerate"):
         return [], False, "skipped-degenerate", dict(skipped_degenerate=1)
     form = case["form"]
     kwargs, nkwargs = {}, {}
